@@ -58,6 +58,10 @@ def h_out_of_bounds(env, boundary_type="center", same_tomo=False, dims_kind="Nx4
     dims = _num_arr(env, [[1.0] + d[0], [2.0] + d[1]])
     if dims_kind == "Nx4_df":
         dims = pd.DataFrame(dims)
+    elif dims_kind in ("1x3", "1x3_list"):
+        # documented input form for a single tomogram (ioutils.dimensions_load): x y z without a tomogram column
+        assert same_tomo
+        dims = _num_arr(env, [d[0]]) if dims_kind == "1x3" else list(d[0])
     kw = {}
     b = 0
     if boundary_type == "whole":
@@ -199,6 +203,7 @@ def jobs(tier, seed):
         ("h_out_of_bounds", {"boundary_type": "center"}),
         ("h_out_of_bounds", {"boundary_type": "whole"}),
         ("h_out_of_bounds", {"boundary_type": "center", "same_tomo": True, "dims_kind": "Nx4_df"}),
+        ("h_out_of_bounds", {"boundary_type": "center", "same_tomo": True, "dims_kind": "1x3"}), ("h_out_of_bounds", {"boundary_type": "whole", "same_tomo": True, "dims_kind": "1x3_list"}),
         ("h_out_of_bounds", {"boundary_type": "center", "index": "swapped"}), ("h_out_of_bounds", {"boundary_type": "whole", "same_tomo": True, "index": "gaps"}),
         ("h_adapt_to_trimming", {}),
         ("h_clean_by_points", {"same_tomo": True}),
